@@ -169,15 +169,21 @@ pub(crate) fn sort_requires(ctx: &Context, input_ast: Ast) -> Ast {
     };
 
     // Reconstruct the AST with sorted require groups
+    // Formatting can be toggled off and on again by `-- stylua: ignore start` / `-- stylua: ignore end` comments
+    // on any statement: follow them through the block, as the formatter does
+    let mut ctx = *ctx;
     let mut stmts: Vec<StmtSemicolon> = Vec::new();
     for part in parts {
         match part {
             BlockPartition::RequiresGroup(_, mut list) => {
                 // If any of the block is ignored, then ignore the whole thing
-                if list
-                    .iter()
-                    .any(|(_, stmt)| !matches!(ctx.should_format_node(stmt), FormatNode::Normal))
-                {
+                let mut ignored = false;
+                for (_, stmt) in &list {
+                    ctx = ctx.check_toggle_formatting(stmt);
+                    ignored |= !matches!(ctx.should_format_node(stmt), FormatNode::Normal);
+                }
+
+                if ignored {
                     stmts.extend(list.iter().map(|x| x.1.clone()));
                     continue;
                 }
@@ -225,7 +231,12 @@ pub(crate) fn sort_requires(ctx: &Context, input_ast: Ast) -> Ast {
                 // Add to the list of stmts
                 stmts.extend(list.iter().map(|x| x.1.clone()))
             }
-            BlockPartition::Other(mut list) => stmts.append(&mut list),
+            BlockPartition::Other(mut list) => {
+                for stmt in &list {
+                    ctx = ctx.check_toggle_formatting(stmt);
+                }
+                stmts.append(&mut list)
+            }
         };
     }
 
